@@ -46,7 +46,7 @@ func TestVerif_C09_Unmap(t *testing.T) {
 	if vkit.Thorough() {
 		bound = 2
 	}
-	R.Rule = "unmap variant: scenario = one request addressed to epoch E2 (JSON-RPC getBlock / getTransaction / getBlockTime, gRPC GetBlock / GetTransaction; control: getBlock addressed to E1) x one reload operation on E2 (ReplaceOrAddEpoch, RemoveEpoch, RemoveEpochByConfigFilepath); E2 loaded by the real NewEpochFromConfig (two objects: the one served and the one replacing it), a copy with the real closers per execution; multiepoch.go, epoch.go, storage.go instrumented, mmap and CAR readers replaced by stand-ins with a scheduling point inside every copy out of a mapping; all interleavings within the preemption bound (quick 1, thorough 2) with happens-before pruning; oracle = no unmap under a read in flight (SIGSEGV in the real process), no panic, no deadlock, both operations return"
+	R.Rule = "unmap variant: scenario = one request addressed to epoch E2 (JSON-RPC getBlock / getTransaction / getBlockTime, gRPC GetBlock / GetTransaction; control: getBlock addressed to E1) x one reload operation on E2 (ReplaceOrAddEpoch, RemoveEpoch, RemoveEpochByConfigFilepath); E2 loaded by the real NewEpochFromConfig (two objects: the one served and the one replacing it), a copy with the real closers per execution; multiepoch.go, epoch.go, storage.go instrumented, mmap and CAR readers replaced by stand-ins with a scheduling point inside every copy out of a mapping; all interleavings within the preemption bound (quick 1, thorough 2) with happens-before pruning; oracle = no unmap under a read in flight (SIGSEGV in the real process), no panic, no deadlock, both operations return; the replacement is another version of the epoch (other CIDs at the same slots) and the shared cache is the real one: a probe request is told the CID of the version it was given, and once a replacement and the concurrent request have both returned, the slot resolves to the new version's block"
 	R.Bounds["unmap_preemption_bound"] = bound
 	e1, err := vkBuildEpoch(filepath.Join(base, "e1"), cargen.SimpleShape(1, 5, 2, 1), true)
 	if err != nil {
@@ -77,23 +77,38 @@ func TestVerif_C09_Unmap(t *testing.T) {
 		R.Internal("load e2: %v", err)
 		return
 	}
-	masterNew, err := vkLoadEpoch(e2.ConfigPath, cache)
+	// the replacement is ANOTHER VERSION of epoch 2: the same slots, one transaction less per block, hence other
+	// blocks and CIDs (a re-generated CAR with its own indexes)
+	e2v2, err := vkBuildEpoch(filepath.Join(base, "e2v2"), cargen.SimpleShape(2, 3, 2, 1), true)
 	if err != nil {
-		R.Internal("load e2: %v", err)
+		R.Internal("build e2v2: %v", err)
 		return
 	}
-	queries := []string{"getBlock@E2", "getTransaction@E2", "grpc:GetBlock@E2", "grpc:GetTransaction@E2", "getBlockTime@E2", "getBlock@E1"}
+	e2v2.writeConfig(vkConfigOpts{NoGsfa: true})
+	masterNew, err := vkLoadEpoch(e2v2.ConfigPath, cache)
+	if err != nil {
+		R.Internal("load e2v2: %v", err)
+		return
+	}
+	probeSlot := e2.Truth.Blocks[1].Slot
+	cidOld, cidNew := e2.Truth.Blocks[1].Cid.String(), e2v2.Truth.Blocks[1].Cid.String()
+	if cidOld == cidNew || e2v2.Truth.Blocks[1].Slot != probeSlot {
+		R.Internal("generator: the two versions of epoch 2 do not differ as intended")
+		return
+	}
+	queries := []string{"getBlock@E2", "getTransaction@E2", "grpc:GetBlock@E2", "grpc:GetTransaction@E2", "getBlockTime@E2", "probe:GetEpoch+FindCidFromSlot@E2", "getBlock@E1"}
 	writers := []string{"ReplaceOrAddEpoch", "RemoveEpoch", "RemoveEpochByConfigFilepath"}
 	var scs []c09uScenario
 	for _, q := range queries {
 		for _, w := range writers {
-			if q == "getBlock@E1" && w != "ReplaceOrAddEpoch" {
-				continue // one control scenario (16 scenarios = one per worker)
+			if (q == "getBlock@E1" || strings.HasPrefix(q, "probe:")) && w != "ReplaceOrAddEpoch" {
+				continue // one control scenario, one probe scenario
 			}
 			scs = append(scs, c09uScenario{q, w})
 		}
 	}
 	R.Bounds["unmap_scenarios"] = len(scs)
+	var probeFrom *Epoch // which object the probe query was given (set per execution)
 	ask := func(q string, m *MultiEpoch) (out string, pan interface{}) {
 		defer func() {
 			if r := recover(); r != nil {
@@ -103,6 +118,19 @@ func TestVerif_C09_Unmap(t *testing.T) {
 		h := newMultiEpochHandler(m, nil)
 		ctx := context.Background()
 		switch q {
+		case "probe:GetEpoch+FindCidFromSlot@E2":
+			// what every handler does first: get the epoch object, then the slot's CID through it
+			ep, err := m.GetEpoch(2)
+			if err != nil {
+				return "rpc error: " + err.Error(), nil
+			}
+			probeFrom = ep
+			vsched.Yield("handler-work")
+			c, err := ep.FindCidFromSlot(ctx, probeSlot)
+			if err != nil {
+				return "rpc error: " + err.Error(), nil
+			}
+			return "cid:" + c.String(), nil
 		case "getBlock@E2", "getBlock@E1":
 			slot := e2.Truth.Blocks[1].Slot
 			if q == "getBlock@E1" {
@@ -136,6 +164,9 @@ func TestVerif_C09_Unmap(t *testing.T) {
 		var out string
 		var pan interface{}
 		returned, wrote := false, false
+		probeFrom = nil
+		afterAsked, afterCid := false, ""
+		var afterErr error
 		s := vsched.Run(c, vsched.Options{Horizon: 6000, Drain: true}, func() {
 			m := vkNewMulti(2, ep1, old)
 			done := make(chan struct{}, 2)
@@ -158,6 +189,17 @@ func TestVerif_C09_Unmap(t *testing.T) {
 			})
 			vsched.Recv(done)
 			vsched.Recv(done)
+			if sc.Writer == "ReplaceOrAddEpoch" {
+				// both have returned: the new version is loaded and stays loaded; what does a request learn now?
+				afterAsked = true
+				if ep, err := m.GetEpoch(2); err != nil {
+					afterErr = err
+				} else if c, err := ep.FindCidFromSlot(context.Background(), probeSlot); err != nil {
+					afterErr = err
+				} else {
+					afterCid = c.String()
+				}
+			}
 		})
 		faults := vmmap.Faults()
 		if c.Pruned {
@@ -191,6 +233,12 @@ func TestVerif_C09_Unmap(t *testing.T) {
 		case !returned || !wrote:
 			res.Outcome = "no-return"
 			bad("no-return", "an operation did not return")
+		case afterAsked && (afterErr != nil || afterCid != cidNew):
+			res.Outcome = "stale-after-reload"
+			bad("stale-after-the-reload-returned", fmt.Sprintf("after the reload and the request had both returned, GetEpoch(2) + FindCidFromSlot(%d) answered %q err=%v; the loaded version's block is %s (old version: %s)", probeSlot, afterCid, afterErr, cidNew, cidOld))
+		case strings.HasPrefix(out, "cid:") && ((probeFrom == fresh && out != "cid:"+cidNew) || (probeFrom == old && out != "cid:"+cidOld)):
+			res.Outcome = "cid-of-the-other-version"
+			bad("cid-of-the-other-version", fmt.Sprintf("the request was given the %s version of epoch 2 and learnt %s through it; old version's block %s, new version's block %s", map[bool]string{true: "new", false: "old"}[probeFrom == fresh], out, cidOld, cidNew))
 		case len(faults) > 0:
 			res.Outcome = "fault"
 			file := "an index file"
